@@ -144,7 +144,7 @@ def densify(subs, vals, shape):
 # ------------------------------------------------------------------------- engine
 READ_OPS = ["r_full", "r_subs", "r_lin", "r_region"]
 WRITE_OPS = ["w_full", "w_subs", "w_lin", "w_region"]
-BAD_OPS = ["bad_subs_count", "bad_subs_cols", "bad_lin_beyond", "bad_region_shape", "bad_sparse_neg_subs", "bad_region_shape_grow"]
+BAD_OPS = ["bad_subs_count", "bad_subs_cols", "bad_lin_beyond", "bad_region_shape", "bad_sparse_neg_subs", "bad_region_shape_grow", "bad_lin_read_beyond"]
 
 
 ITYPES = {"i64": np.int64, "i32": np.int32, "i16": np.int16, "i8": np.int8, "u8": np.uint8, "u16": np.uint16, "u32": np.uint32, "u64": np.uint64, "intp": np.intp}
@@ -664,7 +664,11 @@ class EngineA:
             return {"op": kind, "subs": rows, "vals": [self._next_val(counter) for _ in range(p)]}
         if kind == "bad_lin_beyond":
             n = m.size()
-            return {"op": kind, "key": n + g.randint(1, 5), "val": self._next_val(counter)}
+            # the first linear index that does not exist (the element count itself), or one further out
+            return {"op": kind, "key": n + g.choice([0, 0, 1, 2, 5]), "form": g.choice(["int", "array", "list"]), "val": self._next_val(counter)}
+        if kind == "bad_lin_read_beyond":
+            n = m.size()
+            return {"op": kind, "key": g.choice([n, n, n + 1, n + 3, -n - 1, -n - 2]), "form": g.choice(["int", "array", "list"])}
         if kind == "bad_region_shape":
             key = []
             for d in range(N):
@@ -1273,14 +1277,14 @@ class EngineA:
                 if diff is not None:
                     if self.prop == "C19":
                         return self._viol("rejected_call_leaves_receiver_unchanged", op, i, f"{what} raised but {diff}", "C19")
+                    # (C04: the state check that follows every step judges what the request did to the tensors)
                     res.bump("probe:malformed_partial_mutation")
-                    return "end"
+                    continue
                 res.bump("probe:malformed_rejected")
                 continue
             if self.prop == "C19":
                 return self._viol("malformed_request_is_rejected", op, i, f"{what} did not raise", "C19")
             res.bump("probe:malformed_accepted")
-            return "end"
         return None
 
     def _op_bad_subs_count(self, w, step, i, res):
@@ -1319,13 +1323,37 @@ class EngineA:
 
         return self._bad(w, i, res, "bad_subs_cols", [("S", do_s, f"S[subscripts with {m.order - 1} columns] on an order-{m.order} tensor")])
 
+    @staticmethod
+    def _bad_lin_key(step):
+        k = step["key"]
+        form = step.get("form", "int")
+        if form == "array":
+            return np.array([0, k], dtype=int) if k >= 0 else np.array([k], dtype=int)
+        if form == "list":
+            return [0, k] if k >= 0 else [k]
+        return k
+
+    def _op_bad_lin_read_beyond(self, w, step, i, res):
+        m = w["m"]
+        n = m.size()
+        if n == 0 or -n <= step["key"] < n:
+            return "skip"
+        calls = []
+        for name in ("D", "S"):
+            def do(name=name):
+                return w[name][self._bad_lin_key(step)]
+
+            calls.append((name, do, f"{name}[linear {step['key']}] with {n} elements"))
+        return self._bad(w, i, res, "bad_lin_read_beyond", calls)
+
     def _op_bad_lin_beyond(self, w, step, i, res):
         m = w["m"]
-        if step["key"] <= m.size():
+        if step["key"] < m.size():
             return "skip"
 
         def do_d():
-            w["D"][step["key"]] = step["val"]
+            key = self._bad_lin_key(step)
+            w["D"][key] = step["val"] if not isinstance(key, (list, np.ndarray)) else [step["val"], step["val"] + 1.0]
 
         return self._bad(w, i, res, "bad_lin_beyond", [("D", do_d, f"D[linear {step['key']}] = v with {m.size()} elements")])
 
